@@ -145,11 +145,15 @@ fn corpus() -> &'static Vec<String> {
 /// index is only built above 20 arguments).
 pub fn amplified(rng: &mut Rng) -> String {
     let size = |rng: &mut Rng| -> usize {
-        match rng.below(4) {
+        match rng.below(40) {
+            // rarely: well beyond any small-size optimisation
+            39 => rng.range(64, 96) as usize,
+            x => match x % 4 {
             0 => rng.range(2, 5) as usize,
             1 => rng.range(6, 12) as usize,
             2 => rng.range(21, 30) as usize,
             _ => rng.range(13, 40) as usize,
+            },
         }
     };
     let mut s = String::new();
